@@ -94,6 +94,14 @@ def c02_one(res, g, drv_line_out=None):
     equal = all(p.mu == o.mu and p.sigma == o.sigma and p.id == o.id
                 for t, to in zip(passed, out) for p, o in zip(t, to))
     res.count("passed_untouched" if untouched else ("passed_equal_returned" if equal else "passed_mixture"))
+    if g.get("_identical_priors"):
+        res.count("identical_priors_tie_games")
+    # no object and no id appears twice in the result
+    objs = [id(p) for t in out for p in t]
+    ids_ = [p.id for t in out for p in t]
+    if len(set(objs)) != len(objs) or len(set(ids_)) != len(ids_):
+        res.fail("property", "C02: a player appears twice in the result (and another is dropped)", inp)
+        return
     if not (untouched or equal):
         res.fail("property", "C02: passed rating objects are a mixture of touched and untouched / differ from the returned ratings", inp)
         return
@@ -124,7 +132,18 @@ def c02_games(res, rng, n):
             for j in range(len(t)):
                 t[j] = (t[j][0] + 0.37 * k * g["beta"] / 4, t[j][1] * (1 + 0.011 * k))
                 k += 1
-        if rng.random() < 0.2:
+        if rng.random() < 0.25:
+            # brand-new players everywhere (all priors identical), equal team sizes, tie-heavy outcome:
+            # only ids / names / object identity tell the slots apart
+            sz = rng.randint(1, 3)
+            g["teams"] = [[(25.0 * g["beta"] / core.DEFAULTS["beta"], 25.0 / 3 * g["beta"] / core.DEFAULTS["beta"])] * sz
+                          for _ in g["teams"]]
+            nt = len(g["teams"])
+            dense = [rng.randrange(max(1, nt // 2)) for _ in range(nt)]
+            g["oc"] = (rng.choice(["R", "S"]), encode_ranks(rng, sorted(set(dense)).__class__(
+                [sorted(set(dense)).index(d) for d in dense])))
+            g["_identical_priors"] = True
+        elif rng.random() < 0.2:
             g["tau"] = 1e3 * g["beta"]
             g["tauopt"] = None
             g["ls"] = True
@@ -682,42 +701,63 @@ def c06_game(res, g, games=None):
 
 
 def c06_league(res, rng, kind, ngames, games):
-    """ratings fed back over a league; per-call tau / limit_sigma arbitrary per step"""
+    """a league on ONE model object with the rating objects fed back; per-call tau / limit_sigma arbitrary per step;
+    newcomers with the default values join now and then"""
     beta, kappa, tau = gen_config(rng, default_bias=0.6)
     nplayers = rng.randint(6, 16)
     sc = beta / core.DEFAULTS["beta"]
-    pool = [(rng.gauss(25, 8) * sc, rng.uniform(1, 9) * sc) for _ in range(nplayers)]
-    first = [p[1] for p in pool]
-    acc = [p[1] ** 2 for p in pool]       # sigma_0^2 + sum of tau_g^2
     always_ls = rng.random() < 0.4
     ls_model = always_ls or rng.random() < 0.2
+    model = MODEL_CLS[kind](beta=beta, kappa=kappa, tau=tau, limit_sigma=ls_model)
+    default = (25.0 * sc, 25.0 / 3.0 * sc)
+    pool = [model.rating(*(default if rng.random() < 0.4 else (rng.gauss(25, 8) * sc, rng.uniform(1, 9) * sc))) for _ in range(nplayers)]
+    acc = [p.sigma ** 2 for p in pool]       # sigma_0^2 + sum of tau_g^2
     for gi in range(ngames):
+        if rng.random() < 0.05:
+            k = rng.randrange(nplayers)
+            pool[k] = model.rating(*default)   # a newcomer replaces a player
+            acc[k] = pool[k].sigma ** 2
         nt = rng.randint(2, min(5, nplayers // 2))
         ids = rng.sample(range(nplayers), rng.randint(nt, min(nplayers, nt * 3)))
         teams_ids = [[] for _ in range(nt)]
         for k, pid in enumerate(ids):
             teams_ids[k % nt].append(pid)
         dense = random_weak_order(rng, nt)
-        tauopt = None if rng.random() < 0.6 else rng.choice([0.0, tau * 2, beta / 10])
+        tauopt = None if rng.random() < 0.6 else rng.choice([0.0, tau * 2, beta / 10, 3 * beta])
         lsopt = None if (always_ls or rng.random() < 0.7) else (rng.random() < 0.5)
-        g = make_game(kind, [[pool[p] for p in t] for t in teams_ids], oc=("R", dense), beta=beta, kappa=kappa, tau=tau,
+        prior = [[(pool[p].mu, pool[p].sigma) for p in t] for t in teams_ids]
+        g = make_game(kind, prior, oc=("R", dense), beta=beta, kappa=kappa, tau=tau,
                       ls=ls_model, tauopt=tauopt, lsopt=lsopt, gamma=("D", 0.0))
-        out = c06_game(res, g, games if gi % 7 == 0 else None)
+        kw = dict(ranks=list(dense))
+        if tauopt is not None: kw["tau"] = tauopt
+        if lsopt is not None: kw["limit_sigma"] = lsopt
+        try:
+            out = model.rate([[pool[p] for p in t] for t in teams_ids], **kw)
+        except Exception as e:  # noqa: BLE001
+            res.fail("property", "C06: valid call raised %s in a league" % type(e).__name__, dict(type="game", game=g)); return
         res.count("league_games")
-        if out is None:
-            return
+        res.evaluations += 1
+        if gi % 9 == 0:
+            games.append(g)
         teff = tau if tauopt is None else tauopt
-        for t, to in zip(teams_ids, out):
-            for pid, (m, s) in zip(t, to):
+        ls = ls_model if lsopt is None else lsopt
+        for t, to, tp in zip(teams_ids, out, prior):
+            for pid, p, (pm, ps) in zip(t, to, tp):
                 acc[pid] += teff * teff
-                if s * s > acc[pid] * (1 + 1e-9):
+                s_ = p.sigma
+                bound = math.sqrt(ps * ps + teff * teff)
+                inp = dict(type="c06league", game=g, note="game %d of a league on one model object" % gi)
+                if not (math.isfinite(s_) and s_ > 0):
+                    res.fail("property", "C06: league game %d: sigma %r not finite and positive" % (gi, s_), inp); return
+                if s_ > bound * (1 + 1e-12):
+                    res.fail("property", "C06: league game %d (same model object, per-call tau %r): sigma %r exceeds sqrt(prior^2+tau^2) = %r (prior %r)" % (
+                        gi, tauopt, s_, bound, ps), inp); return
+                if ls and s_ > ps:
+                    res.fail("property", "C06: league game %d: limit_sigma in force but sigma rose %r -> %r" % (gi, ps, s_), inp); return
+                if s_ * s_ > acc[pid] * (1 + 1e-9):
                     res.fail("property", "C06: along a league, player %d's sigma^2 %r exceeds sigma_0^2 + sum tau^2 = %r after %d games" % (
-                        pid, s * s, acc[pid], gi + 1), dict(type="game", game=g))
-                    return
-                if always_ls and s > pool[pid][1]:
-                    res.fail("property", "C06: limit_sigma league: sigma increased %r -> %r" % (pool[pid][1], s), dict(type="game", game=g))
-                    return
-                pool[pid] = (m, s)
+                        pid, s_ * s_, acc[pid], gi + 1), inp); return
+                pool[pid] = p
 
 
 def c06_item(res, item):
